@@ -28,7 +28,7 @@ def make_accel_case(spec, rnd):
                        density=rnd.choice([0.7, 0.9, 1.0]))
 
 
-VARIANTS = ["generic", "generic", "merger-static", "generic", "part", "generic", "lf-shared",
+VARIANTS = ["generic", "generic", "merger-static", "eager2", "part", "generic", "lf-shared",
             "generic", "merger-dynamic", "generic", "part", "lf-affine"]
 
 
@@ -37,10 +37,10 @@ def gen_item(pid, seed, shard, i, **kw):
     the seed (a family that never COMPILES then makes the check inconclusive)."""
     rnd = random.Random("%s-%d-%d-%d" % (pid, seed, shard, i))
     v = VARIANTS[(i + shard) % len(VARIANTS)]
-    if v != "generic" and "n_einsums" in kw and kw["n_einsums"] not in (None, 1, 2):
+    if v not in ("generic", "eager2") and "n_einsums" in kw and kw["n_einsums"] not in (None, 1, 2):
         v = "generic"
-    if v == "generic":
-        return GA.gen_metrics(rnd, force="generic", **kw), rnd
+    if v in ("generic", "eager2"):
+        return GA.gen_metrics(rnd, force=v, **kw), rnd
     return GA.gen_metrics(rnd, force=v), rnd
 
 
